@@ -82,13 +82,28 @@ def opHash : OpFn := fun _ inp out => do
     | .ok eff => if o.err == "" then some (v.name, eff, certUnderFixedOracle eff, o.hash) else none
     | .error _ => none
   let mut pairsChecked : Nat := 0
+  let validityNames := ["base", "validity.until", "validity.duration", "profile.validity", "issuer"]
+  let kindNames := ["ext.kind", "ext.kind2"]
+  let mut fValidity := false
+  let mut fKind := false
+  let mut fOther := false
+  let mut firstPair : Option (String × String) := none
   for (n1, e1, c1, h1) in withCert do
     for (n2, _, c2, h2) in withCert do
       if n1 < n2 || (n1 == "base" && n2 != "base") then
         pairsChecked := pairsChecked + 1
-        if specFail.isNone && c1.isSome && c2.isSome && c1 != c2 && h1 == h2 then
-          specFail := some "C13: edit changes the certificate but not the hash"
-          feat := Json.mkObj [("a", n1), ("b", n2), ("static", e1.validity.isStatic && e1.validity.isSet)]
+        if c1.isSome && c2.isSome && c1 != c2 && h1 == h2 then
+          -- classify: the two blind spots of HashSum that are recorded as known findings, or anything else
+          if validityNames.contains n1 && validityNames.contains n2 && !(e1.validity.isStatic && e1.validity.isSet) then fValidity := true
+          else if kindNames.contains n1 && kindNames.contains n2 then fKind := true
+          else
+            fOther := true
+            if firstPair.isNone then firstPair := some (n1, n2)
+          if firstPair.isNone then firstPair := some (n1, n2)
+  if specFail.isNone && (fValidity || fKind || fOther) then
+    specFail := some "C13: edit changes the certificate but not the hash"
+    feat := Json.mkObj [("validityNotStatic", fValidity), ("extensionKind", fKind), ("other", fOther),
+                        ("a", (firstPair.map (·.1)).getD ""), ("b", (firstPair.map (·.2)).getD "")]
   pure { corr := corrFail.isNone, spec := specFail.isNone, clause := (specFail.getD (corrFail.getD "")),
          nontrivial := ob.err == "", branch := if base.profile.isSome then "profile" else "plain",
          model := Json.mkObj [("pairs", pairsChecked), ("json", match effectiveOf base tz with | .ok e => (Hash.jsonOf e tz).getD "" | .error e => "error: " ++ e)],
